@@ -1,6 +1,7 @@
 package sctp
 
 import (
+	"github.com/pion/sctp/internal/vsched"
 	"fmt"
 	"sort"
 	"time"
@@ -558,6 +559,9 @@ func propC07(j *Job) {
 		cases = append(cases, famKS(modes, 2, true, []time.Duration{0, 300 * time.Millisecond}, 3)...)
 	}
 	runCases(j, cases, func(spec *xferSpec) func(m *Sim, x *Exec, r *xferResult) { return prFinal(spec, true) })
+	for _, mode := range modes {
+		j.Explore(fmt.Sprintf("FB/%s", mode.Name), fwdBacklogScenario(withBase(mode.A, 228, 0xFFFFFFF9, 4000), withBase(mode.B, 228, 50, 4000)), Budget{}, nil)
+	}
 }
 
 // famM1: three streams share the TSN space round-robin: an unreliable stream loses a message
@@ -696,6 +700,91 @@ func prAfterPeerResetScenario(a, b epCfg, limit uint32) *Scenario {
 			m.Observe("sent=%d fwd=%d", n, fwd)
 			m.CloseBoth()
 			m.Join(rdA, rdB)
+		},
+		Final: func(m *Sim, x *Exec) { generalVerdicts(m, x, false) },
+	}
+}
+
+// fwdBacklogScenario: the receiving application is behind on AcceptStream (the backlog of 16
+// is full) when the first message of yet another stream - partially reliable - arrives, is
+// turned away and abandoned.  Once the application has caught up, what the sender writes
+// on that stream afterwards is delivered.
+func fwdBacklogScenario(a, b epCfg) *Scenario {
+	return &Scenario{
+		Name:    "fwd-backlog",
+		Horizon: 200 * time.Second,
+		Body: func(m *Sim) {
+			if !m.Connect(a, b) {
+				m.Failf("connect", "handshake failed: %v %v", m.Err[0], m.Err[1])
+				m.closeFailedTransports()
+				m.CloseBoth()
+				return
+			}
+			A, B := m.As[0], m.As[1]
+			for sid := uint16(1); sid <= uint16(acceptChSize); sid++ {
+				s, _ := A.OpenStream(sid, PayloadTypeWebRTCBinary)
+				m.streamsSeen = append(m.streamsSeen, s)
+				_, _ = s.WriteSCTP(payload(sid, 0, 20), PayloadTypeWebRTCBinary)
+			}
+			m.Sleep(2 * time.Second)
+			s100, _ := A.OpenStream(100, PayloadTypeWebRTCBinary)
+			m.streamsSeen = append(m.streamsSeen, s100)
+			s100.SetReliabilityParams(false, ReliabilityTypeRexmit, 0)
+			_, _ = s100.WriteSCTP(payload(100, 0, 30), PayloadTypeWebRTCBinary)
+			m.Sleep(10 * time.Second) // turned away at B, retransmission limit 0: abandoned, skip announced
+			// the application catches up
+			got := map[uint16][]string{}
+			var ts []*vsched.Thread
+			acc := m.Go("acceptB", func() {
+				for {
+					s, err := B.AcceptStream()
+					if err != nil {
+						return
+					}
+					m.mu.Lock()
+					m.streamsSeen = append(m.streamsSeen, s)
+					m.mu.Unlock()
+					sid := s.StreamIdentifier()
+					ts = append(ts, m.Go(fmt.Sprintf("readB.%d", sid), func() {
+						buf := make([]byte, 2000)
+						for {
+							n, _, err := s.ReadSCTP(buf)
+							if err != nil {
+								return
+							}
+							m.mu.Lock()
+							got[sid] = append(got[sid], string(buf[:n]))
+							m.mu.Unlock()
+						}
+					}))
+				}
+			})
+			m.Sleep(2 * time.Second)
+			s100.SetReliabilityParams(false, ReliabilityTypeReliable, 0)
+			want := payload(100, 1, 31)
+			if _, err := s100.WriteSCTP(want, PayloadTypeWebRTCBinary); err != nil {
+				m.Failf("fwd.base", "write after the skip: %v", err)
+			}
+			ok := m.WaitUntil("delivered", 60*time.Second, func() bool {
+				m.mu.Lock()
+				defer m.mu.Unlock()
+				for _, g := range got[100] {
+					if g == string(want) {
+						return true
+					}
+				}
+				return false
+			})
+			if !ok {
+				m.mu.Lock()
+				n := len(got)
+				m.mu.Unlock()
+				m.Failf("skip.blocks-later", "the first message of stream 100 was abandoned while the receiver's accept backlog was full; the reliable message written on that stream afterwards is not delivered 60 s after the application caught up (%d streams accepted and read, sender has %d bytes buffered)", n, bufAmt(A))
+			}
+			m.Observe("delivered=%v", ok)
+			m.CloseBoth()
+			m.Join(acc)
+			m.Join(ts...)
 		},
 		Final: func(m *Sim, x *Exec) { generalVerdicts(m, x, false) },
 	}
